@@ -4,6 +4,7 @@ CONSTANTS
   Outsider = "x"
   Dense = TRUE
   KeepStatus = FALSE
+  RecheckAtApply = TRUE
   CountAll = TRUE
   InitISRs = {{"r1", "r2", "r3"}}
   L0 = "r1"
